@@ -39,6 +39,16 @@
                973) and give it back when the value is freed (LY_ATOMIC_DEC_BARRIER in lysc_type_free,
                tree_schema_free.c:887). RefInc / RefDec are the atomic operations; RefLoad + RefStoreInc is what a plain
                ++type->refcount compiles to (used by a regression example only)
+     errslot   regression only (a seeded change of ly_err_get_rec moved the read of the found slot behind the unlock):
+               ErrSlotFind is lyht_find alone (the pointer match into the table's arena, kept with the arena generation),
+               ErrSlotRead is found = the content of the slot; both touch the table's memory and need lyb_hash_lock
+     hashdc    the LYB hash cache is filled node by node: HashFill stores the hashes of the FIRST node of the module
+               (lyb_cache_node_hash_cb on mod->compiled->data), HashFillRest those of all other nodes; HashRead reads the
+               hash of some other node. HashCheck is an unlocked test of the first node's hash (regression only: a seeded
+               change put a double-checked fast path in front of the lock in lyb_cache_module_hash)
+     scratch   scratch memory a function fills and then reads: thread-local (a struct tm on the stack filled by gmtime_r,
+               localtime_r; ScrWrite false / ScrRead false) or process-wide (the static struct tm of gmtime(); ScrWrite
+               true / ScrRead true; regression only: a seeded change used gmtime() in lyplg_type_print_date_and_time)
      private   Priv f: a pure operation on thread-local data
    What is NOT modelled and cannot be: the C11 memory model (every step here is atomic and sequentially consistent),
    pthread mutex behaviour other than mutual exclusion, the heap. *)
@@ -103,7 +113,13 @@ Inductive step :=
 | RefInc                        (* LY_ATOMIC_INC_BARRIER(type->refcount) *)
 | RefDec                        (* LY_ATOMIC_DEC_BARRIER(type->refcount) (the type is freed when it was 1) *)
 | RefLoad                       (* tmp = type->refcount   (first half of a plain ++) *)
-| RefStoreInc.                  (* type->refcount = tmp + 1  (second half) *)
+| RefStoreInc                   (* type->refcount = tmp + 1  (second half) *)
+| ErrSlotFind                   (* lyht_find(err_ht, ...) alone: match = address of the slot in the arena *)
+| ErrSlotRead                   (* found = match ? the content of the slot : NULL *)
+| HashCheck                     (* if (mod->compiled->data->hash[0]) - unlocked *)
+| HashFillRest                  (* lyb_cache_node_hash_cb on the nodes after the first *)
+| ScrWrite (g : bool) (v : N)   (* fill the scratch buffer: g = true process-wide static, false thread-local *)
+| ScrRead (g : bool).           (* read it back *)
 
 (* ---------------------------------------------------------------------------------------------------------------
    programs of the API calls
@@ -141,7 +157,16 @@ Definition p_free_lazy (v : nat) (s : bytes) : list step :=
   [CanonCheck v; SkipIf false 5; Acquire LDict; DictRemFind s; DictRemDec s; Release LDict; CanonClr v; OpEnd].
 
 (* lyb_cache_module_hash (lyb.c:100-111) followed by the reads of the printer / parser *)
-Definition p_lyb_hash : list step := [Acquire LHash; HashFill; Release LHash; HashRead; OpEnd].
+Definition p_lyb_hash : list step := [Acquire LHash; HashFill; HashFillRest; Release LHash; HashRead; OpEnd].
+(* the same with a double-checked fast path in front of the lock (regression example) *)
+Definition p_lyb_hash_dc : list step :=
+  [HashCheck; SkipIf true 4; Acquire LHash; HashFill; HashFillRest; Release LHash; HashRead; OpEnd].
+(* ly_err_get_rec with the read of the slot behind the unlock (regression example), followed by ly_err_last's use *)
+Definition p_err_get_late : list step := [Acquire LHash; ErrSlotFind; Release LHash; ErrSlotRead; OpEnd].
+Definition p_err_get_slot : list step := [Acquire LHash; ErrSlotFind; ErrSlotRead; Release LHash; OpEnd].
+(* lyplg_type_print_date_and_time: gmtime_r into a local struct tm, then asprintf from it; and with gmtime() *)
+Definition p_time_print (v : N) : list step := [ScrWrite false v; ScrRead false; OpEnd].
+Definition p_time_print_static (v : N) : list step := [ScrWrite true v; ScrRead true; OpEnd].
 
 Inductive apiop :=
 | ADictInsert (s : bytes)
@@ -156,6 +181,7 @@ Inductive apiop :=
 | ASilentTrial (f : N)          (* a trial operation with the logger silenced by the thread-local override (as coded) *)
 | ADupIid                       (* duplicate a value with a compiled predicate path: reference on the key type (path.c:977) *)
 | AFreeIid                      (* free such a value: lysc_type_free of the key type *)
+| ATimePrint (v : N)            (* print a date-and-time value: thread-local scratch (gmtime_r / localtime_r) *)
 | ALogObserve.                  (* any logging call: which options does this thread's logger see *)
 
 Definition p_api (o : apiop) : list step :=
@@ -172,6 +198,7 @@ Definition p_api (o : apiop) : list step :=
   | ASilentTrial f => [LogTempSet 0; LogObserve; Priv f; LogTempClear; OpEnd]
   | ADupIid => [Priv 7; RefInc; OpEnd]
   | AFreeIid => [RefDec; Priv 8; OpEnd]
+  | ATimePrint v => p_time_print v
   | ALogObserve => [LogObserve; OpEnd]
   end.
 
@@ -210,19 +237,23 @@ Record state := mkS {
   s_temp : nat -> option N;   (* temp_ly_log_opts of each thread (thread-local storage: only thread t touches s_temp t) *)
   s_saved : nat -> N;         (* the local variable prev of a thread between LogSaveSet and LogRestore *)
   s_tref : Z;                 (* lysc_type.refcount of one compiled type of the shared schema *)
-  s_tmp : nat -> Z }.         (* the register of a thread between RefLoad and RefStoreInc *)
+  s_tmp : nat -> Z;           (* the register of a thread between RefLoad and RefStoreInc *)
+  s_slot : nat -> option (N * nat);   (* a thread's pointer into the err_ht arena: (generation, index) *)
+  s_hash2 : bool;             (* LYB hashes of the nodes after the first one cached *)
+  s_gscr : N;                 (* process-wide scratch buffer (static storage) *)
+  s_lscr : nat -> N }.        (* thread-local scratch buffers *)
 
 Definition init (d0 : dictT) (progs : list (list step)) : state :=
-  mkS None None d0 0 8 1 [] (fun _ => false) false (map (fun p => mkT p RNone 0) progs) 3 (fun _ => None) (fun _ => 0) 1%Z (fun _ => 0%Z).
+  mkS None None d0 0 8 1 [] (fun _ => false) false (map (fun p => mkT p RNone 0) progs) 3 (fun _ => None) (fun _ => 0) 1%Z (fun _ => 0%Z) (fun _ => None) false 0 (fun _ => 0).
 
 (* the same with other initial process-wide logging options (3 = LY_LOLOG | LY_LOSTORE) *)
 Definition init_log (g : N) (d0 : dictT) (progs : list (list step)) : state :=
-  mkS None None d0 0 8 1 [] (fun _ => false) false (map (fun p => mkT p RNone 0) progs) g (fun _ => None) (fun _ => 0) 1%Z (fun _ => 0%Z).
+  mkS None None d0 0 8 1 [] (fun _ => false) false (map (fun p => mkT p RNone 0) progs) g (fun _ => None) (fun _ => 0) 1%Z (fun _ => 0%Z) (fun _ => None) false 0 (fun _ => 0).
 
 (* the same with another initial reference count of the shared type *)
 Definition init_ref (c : Z) (progs : list (list step)) : state :=
   mkS None None (fun _ => 0) 0 8 1 [] (fun _ => false) false (map (fun p => mkT p RNone 0) progs) 3 (fun _ => None) (fun _ => 0)
-      c (fun _ => 0%Z).
+      c (fun _ => 0%Z) (fun _ => None) false 0 (fun _ => 0).
 
 Definition holder (st : state) (m : lockid) : option tid :=
   match m with LDict => s_ldict st | LHash => s_lhash st end.
@@ -233,33 +264,38 @@ Definition holds (st : state) (t : tid) (m : lockid) : bool :=
 Definition set_holder (st : state) (m : lockid) (h : option tid) : state :=
   match m with
   | LDict => mkS h (s_lhash st) (s_dict st) (s_egen st) (s_esize st) (s_emode st) (s_erecs st) (s_canon st) (s_hash st) (s_thr st)
-         (s_logopts st) (s_temp st) (s_saved st) (s_tref st) (s_tmp st)
+         (s_logopts st) (s_temp st) (s_saved st) (s_tref st) (s_tmp st) (s_slot st) (s_hash2 st) (s_gscr st) (s_lscr st)
   | LHash => mkS (s_ldict st) h (s_dict st) (s_egen st) (s_esize st) (s_emode st) (s_erecs st) (s_canon st) (s_hash st) (s_thr st)
-         (s_logopts st) (s_temp st) (s_saved st) (s_tref st) (s_tmp st)
+         (s_logopts st) (s_temp st) (s_saved st) (s_tref st) (s_tmp st) (s_slot st) (s_hash2 st) (s_gscr st) (s_lscr st)
   end.
 
 Definition set_dict (st : state) (d : dictT) : state :=
   mkS (s_ldict st) (s_lhash st) d (s_egen st) (s_esize st) (s_emode st) (s_erecs st) (s_canon st) (s_hash st) (s_thr st)
-      (s_logopts st) (s_temp st) (s_saved st) (s_tref st) (s_tmp st).
+      (s_logopts st) (s_temp st) (s_saved st) (s_tref st) (s_tmp st) (s_slot st) (s_hash2 st) (s_gscr st) (s_lscr st).
 Definition set_err (st : state) (g sz md : N) (recs : list erec) : state :=
   mkS (s_ldict st) (s_lhash st) (s_dict st) g sz md recs (s_canon st) (s_hash st) (s_thr st)
-      (s_logopts st) (s_temp st) (s_saved st) (s_tref st) (s_tmp st).
+      (s_logopts st) (s_temp st) (s_saved st) (s_tref st) (s_tmp st) (s_slot st) (s_hash2 st) (s_gscr st) (s_lscr st).
 Definition set_canon (st : state) (c : nat -> bool) : state :=
   mkS (s_ldict st) (s_lhash st) (s_dict st) (s_egen st) (s_esize st) (s_emode st) (s_erecs st) c (s_hash st) (s_thr st)
-      (s_logopts st) (s_temp st) (s_saved st) (s_tref st) (s_tmp st).
+      (s_logopts st) (s_temp st) (s_saved st) (s_tref st) (s_tmp st) (s_slot st) (s_hash2 st) (s_gscr st) (s_lscr st).
 Definition set_hash (st : state) (b : bool) : state :=
   mkS (s_ldict st) (s_lhash st) (s_dict st) (s_egen st) (s_esize st) (s_emode st) (s_erecs st) (s_canon st) b (s_thr st)
-      (s_logopts st) (s_temp st) (s_saved st) (s_tref st) (s_tmp st).
+      (s_logopts st) (s_temp st) (s_saved st) (s_tref st) (s_tmp st) (s_slot st) (s_hash2 st) (s_gscr st) (s_lscr st).
 Definition set_thr (st : state) (l : list tstate) : state :=
   mkS (s_ldict st) (s_lhash st) (s_dict st) (s_egen st) (s_esize st) (s_emode st) (s_erecs st) (s_canon st) (s_hash st) l
-      (s_logopts st) (s_temp st) (s_saved st) (s_tref st) (s_tmp st).
+      (s_logopts st) (s_temp st) (s_saved st) (s_tref st) (s_tmp st) (s_slot st) (s_hash2 st) (s_gscr st) (s_lscr st).
 
 Definition set_log (st : state) (g : N) (tmp : nat -> option N) (sv : nat -> N) : state :=
   mkS (s_ldict st) (s_lhash st) (s_dict st) (s_egen st) (s_esize st) (s_emode st) (s_erecs st) (s_canon st) (s_hash st) (s_thr st)
-      g tmp sv (s_tref st) (s_tmp st).
+      g tmp sv (s_tref st) (s_tmp st) (s_slot st) (s_hash2 st) (s_gscr st) (s_lscr st).
 Definition set_ref (st : state) (c : Z) (tmp : nat -> Z) : state :=
   mkS (s_ldict st) (s_lhash st) (s_dict st) (s_egen st) (s_esize st) (s_emode st) (s_erecs st) (s_canon st) (s_hash st) (s_thr st)
-      (s_logopts st) (s_temp st) (s_saved st) c tmp.
+      (s_logopts st) (s_temp st) (s_saved st) c tmp (s_slot st) (s_hash2 st) (s_gscr st) (s_lscr st).
+Definition set_x (st : state) (sl : nat -> option (N * nat)) (h2 : bool) (gs : N) (ls : nat -> N) : state :=
+  mkS (s_ldict st) (s_lhash st) (s_dict st) (s_egen st) (s_esize st) (s_emode st) (s_erecs st) (s_canon st) (s_hash st) (s_thr st)
+      (s_logopts st) (s_temp st) (s_saved st) (s_tref st) (s_tmp st) sl h2 gs ls.
+Definition supd (c : nat -> option (N * nat)) (t : nat) (v : option (N * nat)) : nat -> option (N * nat) :=
+  fun x => if Nat.eqb x t then v else c x.
 Definition zupd (c : nat -> Z) (t : nat) (v : Z) : nat -> Z := fun x => if Nat.eqb x t then v else c x.
 Definition oupd (c : nat -> option N) (t : nat) (v : option N) : nat -> option N := fun x => if Nat.eqb x t then v else c x.
 Definition nupd (c : nat -> N) (t : nat) (v : N) : nat -> N := fun x => if Nat.eqb x t then v else c x.
@@ -293,7 +329,9 @@ Inductive event :=
 | EvHashRead (cached : bool)
 | EvOpEnd
 | EvLogOpts (v : N)
-| EvRef (d : Z).                            (* an atomic reference count operation took effect: +1 / -1 *)                        (* the logging options a logging call of this thread works with *)
+| EvRef (d : Z)
+| EvSlot (valid : bool)                     (* the slot pointer read through belongs to the current arena / to a freed one *)
+| EvScratch (g : bool) (v : N).             (* the value read back from the scratch buffer *)                            (* an atomic reference count operation took effect: +1 / -1 *)                        (* the logging options a logging call of this thread works with *)
 
 Definition priv_fun (f x : N) : N := (x * 16777619 + f) mod 4294967296.
 
@@ -379,7 +417,7 @@ Definition exec_step (st : state) (t : tid) (ts : tstate) (stp : step) (rest : l
   | CanonClr v => (same (set_canon st (bupd (s_canon st) v false)), [])
   | CanonUse v => (same st, [EvCanonUse v (s_canon st v)])
   | HashFill => (same (set_hash st true), [EvAccess RHashCache (holds st t LHash)])
-  | HashRead => (same st, [EvHashRead (s_hash st)])
+  | HashRead => (same st, [EvHashRead (s_hash2 st)])
   | Priv f => (adv st (t_reg ts) (priv_fun f (t_local ts)) rest, [])
   | OpEnd => (same st, [EvOpEnd])
   | LogSaveSet v => (same (set_log st v (s_temp st) (nupd (s_saved st) t (s_logopts st))), [])
@@ -391,6 +429,21 @@ Definition exec_step (st : state) (t : tid) (ts : tstate) (stp : step) (rest : l
   | RefDec => (same (set_ref st (s_tref st - 1)%Z (s_tmp st)), [EvRef (-1)%Z])
   | RefLoad => (same (set_ref st (s_tref st) (zupd (s_tmp st) t (s_tref st))), [])
   | RefStoreInc => (same (set_ref st (s_tmp st t + 1)%Z (s_tmp st)), [])
+  | ErrSlotFind =>
+      (same (set_x st (supd (s_slot st) t (match find_rec (s_erecs st) t 0 with
+                                           | Some i => Some (s_egen st, i) | None => None end))
+                   (s_hash2 st) (s_gscr st) (s_lscr st)),
+       [EvAccess RErrTab (holds st t LHash)])
+  | ErrSlotRead =>
+      (adv st (RPtr None) (t_local ts) rest,
+       [EvAccess RErrTab (holds st t LHash);
+        EvSlot (match s_slot st t with Some (g, _) => g =? s_egen st | None => true end)])
+  | HashCheck => (adv st (RCached (s_hash st)) (t_local ts) rest, [])
+  | HashFillRest => (same (set_x st (s_slot st) true (s_gscr st) (s_lscr st)), [EvAccess RHashCache (holds st t LHash)])
+  | ScrWrite g v =>
+      (same (if g then set_x st (s_slot st) (s_hash2 st) v (s_lscr st)
+             else set_x st (s_slot st) (s_hash2 st) (s_gscr st) (nupd (s_lscr st) t v)), [])
+  | ScrRead g => (same st, [EvScratch g (if g then s_gscr st else s_lscr st t)])
   end.
 
 Definition exec (st : state) (t : tid) : state * list event :=
@@ -515,7 +568,7 @@ Definition held_eqb (a b : held) : bool := Bool.eqb (fst a) (fst b) && Bool.eqb 
 Definition needs (s : step) : option lockid :=
   match s with
   | DictInsFind _ | DictInsBump _ | DictRemFind _ | DictRemDec _ => Some LDict
-  | ErrFind | ErrInsert | HashFill => Some LHash
+  | ErrFind | ErrInsert | HashFill | ErrSlotFind | ErrSlotRead | HashFillRest => Some LHash
   | _ => None
   end.
 
@@ -553,6 +606,62 @@ Definition is_global_log (s : step) : bool := match s with LogSaveSet _ | LogRes
 Definition is_temp_log (s : step) : bool := match s with LogTempSet _ | LogTempClear => true | _ => false end.
 Definition global_log_free (p : list step) : bool := negb (existsb is_global_log p).
 Definition temp_log_free (p : list step) : bool := negb (existsb is_temp_log p).
+
+(* scratch: no step uses the process-wide buffer; the values a thread reads back from its thread-local buffer alone *)
+Definition is_global_scr (s : step) : bool := match s with ScrWrite true _ | ScrRead true => true | _ => false end.
+Definition is_local_scr (s : step) : bool := match s with ScrWrite false _ | ScrRead false => true | _ => false end.
+Definition global_scr_free (p : list step) : bool := negb (existsb is_global_scr p).
+Fixpoint scr_reads (p : list step) (x : N) : list N :=
+  match p with
+  | [] => []
+  | ScrWrite false v :: p' => scr_reads p' v
+  | ScrRead false :: p' => x :: scr_reads p' x
+  | _ :: p' => scr_reads p' x
+  end.
+Fixpoint scr_unskipped (p : list step) : bool :=
+  match p with
+  | [] => true
+  | SkipIf _ n :: p' => negb (existsb is_local_scr (firstn n p')) && scr_unskipped p'
+  | _ :: p' => scr_unskipped p'
+  end.
+(* the values thread t read back from its thread-local buffer, in order *)
+Fixpoint local_reads (t : tid) (tr : trace) : list N :=
+  match tr with
+  | [] => []
+  | (u, EvScratch false v) :: tr' => if Nat.eqb u t then v :: local_reads t tr' else local_reads t tr'
+  | _ :: tr' => local_reads t tr'
+  end.
+
+(* LYB hash cache: every read of a cached hash is preceded, in the same thread, by the (locked) fill of all nodes.
+   k = this thread has completed a fill; a conditionally skipped block must not contain hash cache steps *)
+Definition is_hash_step (s : step) : bool := match s with HashFillRest | HashRead => true | _ => false end.
+Fixpoint hchk (k : bool) (p : list step) : bool :=
+  match p with
+  | [] => true
+  | HashFillRest :: p' => hchk true p'
+  | HashRead :: p' => k && hchk k p'
+  | SkipIf _ n :: p' => negb (existsb is_hash_step (firstn n p')) && hchk k p'
+  | _ :: p' => hchk k p'
+  end.
+
+(* err_ht slot pointers: every read through a slot pointer happens in the critical section in which the pointer was
+   obtained (f = the thread has looked the slot up since it last took lyb_hash_lock and has not inserted since); a
+   conditionally skipped block contains no slot pointer step (it may take and drop the lock: that only resets f) *)
+Definition is_slot_step (s : step) : bool := match s with ErrSlotFind | ErrSlotRead => true | _ => false end.
+Fixpoint schk (f : bool) (p : list step) : bool :=
+  match p with
+  | [] => true
+  | ErrSlotFind :: p' => schk true p'
+  | ErrSlotRead :: p' => f && schk f p'
+  | ErrInsert :: p' => schk false p'
+  | Acquire LHash :: p' => schk false p'
+  | Release LHash :: p' => schk false p'
+  | SkipIf _ n :: p' => negb (existsb is_slot_step (firstn n p')) && schk f p'
+  | _ :: p' => schk f p'
+  end.
+Definition slot_current (st : state) (t : tid) : bool :=
+  match s_slot st t with Some (g, _) => g =? s_egen st | None => true end.
+Definition fresh (st : state) (t : tid) : bool := holds st t LHash && slot_current st t.
 
 (* no step is half of a plain (non-atomic) increment of the shared type's reference count *)
 Definition is_plain_ref (s : step) : bool := match s with RefLoad | RefStoreInc => true | _ => false end.
@@ -652,3 +761,24 @@ Definition w_ref_fine : list tid := [0; 1; 0; 1; 0; 1; 0; 1]%nat.
 Definition w_ref2_progs : list (list step) := [p_dup_iid_plain; compile [AFreeIid]].
 Definition w_ref2_fine : list tid := [0; 0; 1; 0; 0; 1; 1]%nat.
 Definition w_ref_progs_atomic : list (list step) := [compile [ADupIid]; compile [ADupIid]].
+
+(* regression witnesses of three seeded changes.
+   err slot: threads 0..4 have error records; thread 0 looks its slot up, drops the lock; thread 5 logs its first error
+   (6th record: the arena is enlarged = freed); thread 0 reads the slot *)
+Definition w_slot_progs : list (list step) :=
+  [compile [ALogStore 10] ++ p_err_get_late; compile [ALogStore 11]; compile [ALogStore 12]; compile [ALogStore 13];
+   compile [ALogStore 14]; compile [ALogStore 15]].
+Definition w_slot_fine : list tid :=
+  (repeat 0 9 ++ repeat 1 9 ++ repeat 2 9 ++ repeat 3 9 ++ repeat 4 9 ++ repeat 0 3 ++ repeat 5 9 ++ repeat 0 2)%nat.
+Definition w_slot_progs_ok : list (list step) :=
+  [compile [ALogStore 10] ++ p_err_get_slot; compile [ALogStore 11]; compile [ALogStore 12]; compile [ALogStore 13];
+   compile [ALogStore 14]; compile [ALogStore 15]].
+(* double-checked hash cache: thread 0 has stored the first node's hashes; thread 1 tests, skips the lock, reads *)
+Definition w_hashdc_progs : list (list step) := [p_lyb_hash_dc; p_lyb_hash_dc].
+Definition w_hashdc_fine : list tid := [0; 0; 0; 0; 1; 1; 1; 1; 0; 0; 0; 0]%nat.
+Definition w_hash_progs : list (list step) := [p_lyb_hash; p_lyb_hash].
+Definition w_hash_fine : list tid := [0; 0; 1; 1; 0; 0; 0; 0; 1; 1; 1; 1; 1; 1]%nat.
+(* static scratch: thread 0 fills it, thread 1 fills it, thread 0 reads *)
+Definition w_scr_progs : list (list step) := [p_time_print_static 5; p_time_print_static 9].
+Definition w_scr_fine : list tid := [0; 1; 0; 1; 0; 1]%nat.
+Definition w_scr_progs_local : list (list step) := [p_time_print 5; p_time_print 9].
